@@ -33,10 +33,11 @@ VERIFY_ERR = re.compile(
 RLIMIT_ERR = re.compile(r'Resource limit \(rlimit\) exceeded|rlimit exceeded|solver (gave up|timed out)')
 
 
-def assemble(which, repo_dir, features=()):
+def assemble(which, repo_dir, features=(), force_degrade=None):
     c = CRATES[which]
     ov = Overlay(os.path.join(common.VERIF, c['overlay']))
     a = Assembler(os.path.join(repo_dir, c['dir']), ov, features)
+    a.force_degrade = dict(force_degrade or {})
     text = a.assemble(CRATE_ATTRS)
     a.manifest['degraded'] = a.degraded
     return text, a.manifest, a.errors, ov
@@ -112,10 +113,41 @@ def scan_assumptions(text):
     return out
 
 
+def _diag_fn_key(name):
+    """'lib.rs :: impl LanguageIdentifier :: matches' -> ('lib.rs', 'impl LanguageIdentifier', 'matches')"""
+    parts = [p.strip() for p in name.split(' :: ')]
+    if len(parts) == 2:
+        return (parts[0], '', parts[1])
+    if len(parts) >= 3:
+        return (parts[0], ' :: '.join(parts[1:-1]), parts[-1])
+    return None
+
+
 def run_crate(which, work, repo_dir, features=(), deps=None, rlimit=None, extra_text=''):
-    """Assemble + verify one crate.  Returns a result dict (possibly from the cache)."""
+    """Assemble + verify one crate.  If the annotated text of some functions under contract does not compile (a body was
+    restructured so that a hint lands in the wrong place, or it now calls something outside the contracts), those functions
+    are re-emitted with their contract only (their own obligation is UNDECIDED) and the rest of the crate is still verified."""
+    force = {}
+    res = None
+    for _round in range(4):
+        res = _run_crate(which, work, repo_dir, features, deps, rlimit, extra_text, force)
+        if not res.get('compile_failed') or res.get('timeout'):
+            break
+        new = {}
+        for d in res.get('diags', []):
+            if d['kind'] == 'other' and d.get('fn') and not d['fn'].startswith('lemma ::'):
+                k = _diag_fn_key(d['fn'])
+                if k and k not in force:
+                    new[k] = 'annotated body does not compile / uses a construct outside the contracts: ' + d['head'][:200]
+        if not new:
+            break
+        force.update(new)
+    return res
+
+
+def _run_crate(which, work, repo_dir, features, deps, rlimit, extra_text, force):
     c = CRATES[which]
-    text, manifest, aerrors, ov = assemble(which, repo_dir, features)
+    text, manifest, aerrors, ov = assemble(which, repo_dir, features, force)
     text += extra_text
     fname = which + '.rs'
     path = os.path.join(work, fname)
